@@ -217,7 +217,7 @@ def rule_WM4(rep, prog, q, ex):
         for i in fn.all_insts():
             if i.op in ("store", "atomicrmw", "cmpxchg") and "do_targetq" in prog.fields(i):
                 rep.saw(fn)
-                rep.require(rid, i.origin in TARGETQ_WRITERS, i.loc, i.origin, "unclassified-targetq-writer:%s" % i.origin,
+                rep.classified(rid, i.origin, i.origin in TARGETQ_WRITERS, i.loc, i.origin, "unclassified-targetq-writer:%s" % i.origin,
                             "%s writes do_targetq but is not a classified constructor / retarget path: retargeting an active queue breaks the "
                             "serialisation of everything already submitted through the old target" % i.origin,
                             sample={"writer": i.origin, "class": TARGETQ_WRITERS.get(i.origin)})
